@@ -93,7 +93,7 @@ def _walk_semantics(f, body, lp):
 
 def traversal(prog, rep):
     rep.rule("C18.T", "find_errors is the fixed pre-order walk that reports error/missing nodes and skips their subtrees")
-    fe = [f for f in prog.fns.values() if f.name == "find_errors" and f.file == "src/parse_error.rs"]
+    fe = [f for f in prog.shape_fns() if f.name == "find_errors" and f.file == "src/parse_error.rs"]
     if len(fe) != 1:
         rep.violation("C18.T", "anchor-lost:find_errors", "", "not found")
     else:
@@ -208,7 +208,7 @@ def entry_points(prog, rep):
     rep.rule("C18.E", "first/all/into_first/into_all all use find_errors with first_only = true/false/true/false on the given tree")
     want = {"first": "true", "all": "false", "into_first": "true", "into_all": "false"}
     got = {}
-    for f in prog.fns.values():
+    for f in prog.shape_fns():
         if f.file != "src/parse_error.rs" or f.body is None:
             continue
         tr = None
@@ -221,14 +221,14 @@ def entry_points(prog, rep):
         rep.check(len(g) == 1 and g[0][0] == fo and g[0][1] in ("arg:tree",), "C18.E", "ParseError::%s" % nm, "", "find_errors(tree, .., %s)" % fo, "%s calls find_errors as %s" % (nm, g))
     # delegation of the public constructors
     for pub, inner in (("into_first", "TreeWithParseErrorOption"), ("into_all", "TreeWithParseErrorVec")):
-        fl = [f for f in prog.fns.values() if f.name == pub and f.self_path == "tsg::parse_error::ParseError"]
+        fl = [f for f in prog.shape_fns() if f.name == pub and f.self_path == "tsg::parse_error::ParseError"]
         ok = False
         if len(fl) == 1:
             ok = any(is_callee(t, r"parse_error::%s::%s$" % (inner, pub)) for b, t in fl[0].body.calls())
         rep.check(ok, "C18.E", "ParseError::%s delegates" % pub, "", "→ %s::%s" % (inner, pub), "public %s does not delegate to the owning bundle" % pub)
     # the owned variants return first element / whole vector
     for nm, pat in (("first", r"^Iterator::next\(&IntoIterator::into_iter\(Vec::new\(\)\)\)$"), ("all", r"^Vec::new\(\)$")):
-        fl = [f for f in prog.fns.values() if f.name == nm and f.self_path == "tsg::parse_error::ParseError"]
+        fl = [f for f in prog.shape_fns() if f.name == nm and f.self_path == "tsg::parse_error::ParseError"]
         if len(fl) == 1:
             r = canon(Tracer(fl[0].body).local(0))
             rep.check(re.match(pat, r) is not None, "C18.E", "ParseError::%s result" % nm, fl[0].loc(), r[:80], "%s returns %s" % (nm, r[:120]))
@@ -239,13 +239,13 @@ def run(prog, rep):
     entry_points(prog, rep)
     # ---- unsafe audit
     rep.rule("C18.U", "unsafe audit: two lifetime-only transmutes in the owning bundles; six unsafe Send/Sync impls on structs that own the Tree; no 'static node escapes")
-    ub = [(f.id, f.unsafe_blocks) for f in prog.fns.values() if f.unsafe_blocks and f.kind != "closure"]
+    ub = [(f.id, f.unsafe_blocks) for f in prog.shape_fns() if f.unsafe_blocks and f.kind != "closure"]
     rep.check(sorted(x[0].rsplit("::", 2)[-2] + "::" + x[0].rsplit("::", 1)[-1] for x in ub) == ["TreeWithParseErrorOption::into_first", "TreeWithParseErrorVec::into_all"] and all(n == 1 for _i, n in ub),
               "C18.U", "unsafe blocks", "", "exactly 2 unsafe blocks: %s" % [x[0].rsplit("::", 1)[-1] for x in ub], "unsafe blocks in the crate: %s" % ub)
-    unsafe_fns = [f.id for f in prog.fns.values() if f.unsafe]
+    unsafe_fns = [f.id for f in prog.shape_fns() if f.unsafe]
     rep.check(not unsafe_fns, "C18.U", "unsafe fns", "", "no unsafe fn", "unsafe fns: %s" % unsafe_fns)
     ntr = 0
-    for f in prog.fns.values():
+    for f in prog.shape_fns():
         if f.body is None or not f.unsafe_blocks:
             continue
         for b in sorted(f.body.reachable()):
@@ -266,12 +266,12 @@ def run(prog, rep):
         adt = prog.adts.get("tsg::parse_error::" + s)
         flds = {fd["name"]: (prog.lib.types[fd["ty"]].s, fd["vis"]) for fd in adt["variants"][0]["fields"]} if adt else {}
         rep.check(flds.get("tree", ("", ""))[0] == "tree_sitter::Tree" and all(v[1] != "pub" for v in flds.values()), "C18.U", "%s owns its tree privately" % s, "", str(flds)[:120], "%s does not own `tree: Tree` with private fields: %s" % (s, flds))
-        for f in prog.fns.values():
+        for f in prog.shape_fns():
             if f.self_path == "tsg::parse_error::" + s and f.vis == "pub" and f.output is not None:
                 rep.check("'static" not in f.ty(f.output).s, "C18.U", "%s::%s :: no 'static node escapes" % (s, f.name), f.loc(), f.ty(f.output).s[:80], "%s::%s returns %s" % (s, f.name, f.ty(f.output).s))
     # ---- Display
     rep.rule("C18.D", "plain display slices source[start .. start + k] with k a byte length (sum of len_utf8 over the first line of the node's text); pretty display uses character columns")
-    pd = [f for f in prog.fns.values() if f.trait == "std::fmt::Display" and f.self_path == "tsg::parse_error::ParseErrorDisplay"]
+    pd = [f for f in prog.shape_fns() if f.trait == "std::fmt::Display" and f.self_path == "tsg::parse_error::ParseErrorDisplay"]
     if len(pd) == 1:
         f = pd[0]
         tr = Tracer(f.body)
@@ -285,7 +285,7 @@ def run(prog, rep):
                   "the cut length of the plain display is not a UTF-8 byte length of the node's first line: %s" % src[:160])
     else:
         rep.violation("C18.D", "anchor-lost:ParseErrorDisplay", "", "not found")
-    pp = [f for f in prog.fns.values() if f.trait == "std::fmt::Display" and f.self_path == "tsg::parse_error::ParseErrorDisplayPretty"]
+    pp = [f for f in prog.shape_fns() if f.trait == "std::fmt::Display" and f.self_path == "tsg::parse_error::ParseErrorDisplayPretty"]
     if len(pp) == 1:
         f = pp[0]
         tr = Tracer(f.body)
